@@ -428,11 +428,13 @@ impl PublishBuilder {
         if tx.is_canceled() {
             Err(SendPacketError::StreamingCancelled)
         } else {
+            // payload can be streamed only if publish packet is written,
+            // otherwise `tx` is dropped and streaming is cancelled
             let rx =
-                self.shared.wait_publish_response(idx, AckType::Publish, self.packet, chunk);
+                self.shared.wait_publish_response(idx, AckType::Publish, self.packet, chunk)?;
             let _ = tx.send(());
 
-            rx?.await.map(Ack::publish).map_err(|_| SendPacketError::Disconnected)
+            rx.await.map(Ack::publish).map_err(|_| SendPacketError::Disconnected)
         }
     }
 
